@@ -25,13 +25,13 @@ package trace_test
 // The harness uses the public API only.
 
 import (
-	"os"
 	"context"
 	"encoding/binary"
 	"encoding/hex"
 	"encoding/json"
 	"errors"
 	"fmt"
+	"os"
 	"sort"
 	"strconv"
 	"strings"
